@@ -421,6 +421,14 @@ func registerReflect(e *Engine) {
 		}
 		return one(c.St, VIface{Nil: False, Dyn: r.Typ, Val: v})
 	}
+	e.intr[rv+"SetString"] = func(e *Engine, c *CallCtx) []Outcome {
+		r := rvalOf(c.Args[0])
+		if r == nil || r.Addr == nil {
+			return []Outcome{{St: c.St, Panic: &PanicInfo{Kind: "reflect-unaddressable", Site: c.Site}}}
+		}
+		e.store(c.St, *r.Addr, c.Args[1], c.Site)
+		return one(c.St, nil)
+	}
 	e.intr[rv+"Addr"] = func(e *Engine, c *CallCtx) []Outcome {
 		r := rvalOf(c.Args[0])
 		if r == nil || r.Addr == nil {
